@@ -206,7 +206,7 @@ fn json_hostile(doc: &Value) -> Vec<(String, Vec<u8>)> {
     out
 }
 
-fn hostile_varints() -> Vec<(&'static str, Vec<u8>)> {
+pub fn hostile_varints() -> Vec<(&'static str, Vec<u8>)> {
     let mut max19 = vec![0xffu8; 18];
     max19.push(0x7f);
     vec![
